@@ -147,11 +147,11 @@ pub fn glue(_thorough: bool) -> Report {
         let _ = std::fs::remove_file(&log);
         let mut bc = BuildConfig::new("heroku/builder:24", &fixture);
         bc.buildpacks(bps.iter().map(|b| BuildpackReference::Other(b.to_string())).collect::<Vec<_>>());
-        bc.env("BUILD_ONLY", "s3cr=t").envs([("BP_LOG_LEVEL", "debug")]);   // env() followed by envs(): both kinds of call ADD
+        bc.env("BUILD_ONLY", "s3cr=t").envs([("BP_LOG_LEVEL", "debug")]).env("BP_PADDED", " v ");   // env() followed by envs(): both kinds of call ADD
         // the preprocessor adds a file AND rewrites an existing one in place: both only ever touch the private copy
         if preprocess { bc.app_dir_preprocessor(|p| { std::fs::write(p.join("extra"), "x").unwrap(); std::fs::write(p.join("Procfile"), "web: rewritten by the preprocessor").unwrap(); }); }
         let mut cc = ContainerConfig::new();
-        if variant == 0 { cc.entrypoint("web").env("PORT", "8080").envs([("GREETING", "a=b c")]).expose_port(8080).bind_mount("/host/test cache", "/workspace/cache"); } else { cc.command(["echo", "an earlier command that the next call replaces"]); cc.command(["bash", "-c", "echo hi"]).env("ONLY_IN_CONTAINER", "").expose_port(80).expose_port(443).bind_mount("/host/a", "/data").bind_mount("/host/b", "/etc/b"); }
+        if variant == 0 { cc.entrypoint("web").env("PORT", "8080").envs([("GREETING", "a=b c")]).env("PADDED", "  two leading, newline at the end\n").expose_port(8080).bind_mount("/host/test cache", "/workspace/cache"); } else { cc.command(["echo", "an earlier command that the next call replaces"]); cc.command(["bash", "-c", "echo hi"]).env("ONLY_IN_CONTAINER", "").expose_port(80).expose_port(443).bind_mount("/host/a", "/data").bind_mount("/host/b", "/etc/b"); }
         let _ = std::fs::remove_file(root.join("cmd.log.path"));
         let input = format!("preprocessor {preprocess}, buildpacks {bps:?}, container variant {variant}");
         let res = std::panic::catch_unwind(std::panic::AssertUnwindSafe(|| { TestRunner::default().build(&bc, |ctx| { ctx.start_container(&cc, |_c| {}); }); }));
@@ -162,9 +162,9 @@ pub fn glue(_thorough: bool) -> Report {
         if packs.len() != 1 || runs.len() != 1 { r.violation("glue_count", "exactly one pack build and one docker run per configuration", input.clone(), "1 / 1".into(), format!("{} / {} in {cmds:?}", packs.len(), runs.len())); continue; }
         match parse_build(&packs[0][1..]) {
             Ok(b) => {
-                let want_env: BTreeMap<String, String> = [("BUILD_ONLY", "s3cr=t"), ("BP_LOG_LEVEL", "debug")].iter().map(|(k, v)| (k.to_string(), v.to_string())).collect();
+                let want_env: BTreeMap<String, String> = [("BUILD_ONLY", "s3cr=t"), ("BP_LOG_LEVEL", "debug"), ("BP_PADDED", " v ")].iter().map(|(k, v)| (k.to_string(), v.to_string())).collect();
                 let path_ok = if preprocess { b.path.as_deref() != Some(fixture.to_str().unwrap()) && b.path.is_some() } else { b.path.as_deref() == Some(fixture.to_str().unwrap()) };
-                if b.builder.as_deref() != Some("heroku/builder:24") || b.buildpacks != bps.iter().map(|x| x.to_string()).collect::<Vec<_>>() || b.env != want_env || b.env_count != 2 || !path_ok {
+                if b.builder.as_deref() != Some("heroku/builder:24") || b.buildpacks != bps.iter().map(|x| x.to_string()).collect::<Vec<_>>() || b.env != want_env || b.env_count != 3 || !path_ok {
                     r.violation("glue_pack", "the pack build invocation carries the builder, app path, buildpacks in order and every build env pair exactly once", format!("{input} -> {:?}", packs[0]), format!("builder heroku/builder:24, buildpacks {bps:?}, env {want_env:?}, path {}", if preprocess { "a private copy" } else { "the fixture" }), format!("{b:?}"));
                 }
             }
@@ -173,7 +173,7 @@ pub fn glue(_thorough: bool) -> Report {
         match parse_run(&runs[0][1..]) {
             Ok(d) => {
                 let (want_ep, want_cmd, want_env, mut want_ports): (Option<String>, Vec<String>, BTreeMap<String, String>, Vec<u16>) = if variant == 0 {
-                    (Some("web".into()), vec![], [("PORT", "8080"), ("GREETING", "a=b c")].iter().map(|(k, v)| (k.to_string(), v.to_string())).collect(), vec![8080])
+                    (Some("web".into()), vec![], [("PORT", "8080"), ("GREETING", "a=b c"), ("PADDED", "  two leading, newline at the end\n")].iter().map(|(k, v)| (k.to_string(), v.to_string())).collect(), vec![8080])
                 } else { (None, vec!["bash".into(), "-c".into(), "echo hi".into()], [("ONLY_IN_CONTAINER", "")].iter().map(|(k, v)| (k.to_string(), v.to_string())).collect(), vec![80, 443]) };
                 want_ports.sort(); let mut got_ports = d.ports.clone(); got_ports.sort();
                 let mut want_mounts: Vec<(String, String)> = if variant == 0 { vec![("/host/test cache".into(), "/workspace/cache".into())] } else { vec![("/host/a".into(), "/data".into()), ("/host/b".into(), "/etc/b".into())] };
